@@ -397,7 +397,8 @@ class Interp:
         if dst == np.bool_ and src != np.bool_:
             return _ew1(lambda p: P.ONE - P.b_eq(p, P.ZERO), x)
         if np.issubdtype(dst, np.integer) and np.issubdtype(src, np.floating):
-            raise Unsupported("float -> int conversion of a symbolic value")
+            # truncation towards zero: an interpreted-by-name atom (congruent, evaluated numerically on replay)
+            return _ew1(lambda p: P.Poly.const(int(p.const_value())) if p.is_const() else P.fn("trunc", p), x)
         return x
 
     def p_reduce_precision(self, eqn, v):
